@@ -112,6 +112,7 @@ def reproduces(viol, code, out, err):
     if k in ('memory',): return code == 77 or code == 78 or code in (-11, -6, -7, 139, 134) or 'AddressSanitizer' in err or 'runtime error' in err
     if k == 'ub': return code == 78 or code == 77 or 'runtime error' in err
     if k in ('terminate', 'libassert', 'stdthrow'): return code in (-6, 134) or 'terminate' in err or 'Assertion' in err
+    if k == 'compiler-dependent': return code == 3
     return False
 
 
@@ -159,17 +160,31 @@ def explore_run(pid, run, tier, work, nproc, log):
     if missing: res['problems'].append('vacuity: cover goal(s) %s not reached by any path' % missing)
     bins = finish_native_builds(procs) if procs else {}
     # ---- witness validation (translation validation of the engine against native builds)
-    validated = 0; res['witness_mismatch'] = []
+    validated = 0; res['witness_mismatch'] = []; res['compiler_dependent'] = []
     if bins:
         wits = list(tot['cover_wit'].items())[:run.max_witnesses] + [('sample', s) for s in tot['samples'][:3]]
         for g, rp in wits:
             if any(c[0] == 'sym' and c[2] is None for c in rp['choices']): continue
+            per = {}
             for v, b in bins.items():
                 code, out, err = run_native(b, rp, work)
                 obs = parse_obs(out)
-                if code != 0 or obs != rp['obs']:
-                    res['witness_mismatch'].append({'goal': g, 'variant': v, 'exit': code, 'expected_obs': rp['obs'][:20], 'native_obs': obs[:20], 'stderr': err[-400:], 'stdout_tail': out[-300:]})
-                else: validated += 1
+                per[v] = {'ok': code == 0 and obs == rp['obs'], 'exit': code, 'obs': obs, 'out': out, 'err': err}
+            bad = [v for v in per if not per[v]['ok']]
+            validated += len(per) - len(bad)
+            if not bad: continue
+            # the engine executes clang's lowering: if a clang-built native binary agrees with the engine while a g++-built
+            # one violates an assertion on the same inputs, eventpp's behaviour depends on the compiler (C04/C20), which is a violation
+            clang_ok = any(per[v]['ok'] for v in per if v.startswith('clang'))
+            gxx_assert = [v for v in bad if v.startswith('gxx') and per[v]['exit'] == 3]
+            if clang_ok and gxx_assert and all(v.startswith('gxx') for v in bad):
+                m_ = re.search(r'VF-ASSERT-FAIL (\d+)', per[gxx_assert[0]]['out'])
+                rp2 = dict(rp); rp2['violation'] = {'msg': 'behaviour depends on the compiler: assertion %s fails in the %s build, holds in the clang build and in the engine (clang lowering)' % (m_.group(1) if m_ else '?', gxx_assert[0]),
+                                                   'kind': 'compiler-dependent', 'aid': int(m_.group(1)) if m_ else None, 'where': 'native replay', 'tags': []}
+                res['compiler_dependent'].append(rp2)
+            else:
+                v = bad[0]
+                res['witness_mismatch'].append({'goal': g, 'variant': v, 'exit': per[v]['exit'], 'expected_obs': rp['obs'][:20], 'native_obs': per[v]['obs'][:20], 'stderr': per[v]['err'][-400:], 'stdout_tail': per[v]['out'][-300:]})
     res['validated'] = validated
     if res['witness_mismatch']: res['problems'].append('ENGINE-MISMATCH: %d witness replay(s) disagree with the native build (first: %s)' % (len(res['witness_mismatch']), json.dumps(res['witness_mismatch'][0])[:600]))
     # ---- candidate violations
@@ -178,6 +193,13 @@ def explore_run(pid, run, tier, work, nproc, log):
     for v in tot['violations']:
         key = (v['violation']['kind'], v['violation']['aid'], re.sub(r'\d+', '#', v['violation']['msg']))
         groups.setdefault(key, []).append(v)
+    for rp2 in res['compiler_dependent'][:3]:
+        rec = {'run': run.name, 'harness': run.harness, 'defines': run.defines, 'std': run.std, 'exc': run.exc, 'own_new': run.own_new, 'replay': rp2, 'count': len(res['compiler_dependent']),
+               'native': {'variant': 'gxx', 'note': 'assertion fails natively under g++ only'}}
+        k = match_known(known, pid, run, rp2)
+        if k is not None: rec['known'] = k['id']; res['known'].append(rec)
+        else: res['confirmed'].append(rec)
+        break
     for key, vs in groups.items():
         vs.sort(key=lambda v: len(v['choices']))
         for v in vs[:3]:
